@@ -97,6 +97,9 @@ func generate(prop, tier string, seed uint64, run int) *Scenario {
 	case "C11":
 		return genRename(prop, seed, run, tier)
 	case "C12":
+		if pick >= 92 {
+			return genReuse(prop, seed, run)
+		}
 		if pick < 60 {
 			c := 0
 			if tier == "thorough" && pick < 5 {
